@@ -1,6 +1,7 @@
 package prop
 
 import (
+	"strings"
 	"encoding/json"
 	"fmt"
 	"math/big"
@@ -67,6 +68,8 @@ type csDirector struct {
 	next   time.Time // block time of the block being filled
 }
 
+var csLookalikes = []string{"junk-1", "junk-2", "junk-3", "lpt-01", "lpt-02", "lpt-03"}
+
 func runCoinswap(run *ev.Run, c int, mode string) {
 	rng := run.Rng
 	denoms := []string{"tka", "tkb", "tkc"}
@@ -74,6 +77,11 @@ func runCoinswap(run *ev.Run, c int, mode string) {
 	huge := toInt(pow2(150))
 	for _, d := range append([]string{rig.BondDenom}, denoms...) {
 		bal = bal.Add(sdk.NewCoin(d, huge))
+	}
+	// coins whose names merely look like liquidity tokens of pools 1..3 (such denominations can reach a chain through
+	// genesis or another module); they identify no pool
+	for _, d := range csLookalikes {
+		bal = bal.Add(sdk.NewCoin(d, toInt(pow2(100))))
 	}
 	r := rig.New(rig.Options{Seed: fmt.Sprintf("cs-%d-%d", run.Seed, c), NumAccounts: 6, Balances: bal, InflationOff: true})
 	d := &csDirector{run: run, r: r, mode: mode, denoms: denoms, std: rig.BondDenom, feeCfg: "default"}
@@ -115,6 +123,8 @@ func runCoinswap(run *ev.Run, c int, mode string) {
 	run.Require("add-ok", 1)
 	run.Require("remove-ok", 1)
 }
+
+func pa0(bech string) sdk.AccAddress { a, _ := sdk.AccAddressFromBech32(bech); return a }
 
 func (d *csDirector) otherDenom(denom string) string {
 	for _, o := range d.denoms {
@@ -323,7 +333,14 @@ func (d *csDirector) intent(maxBits, blockNo int) (rig.Tx, bool) {
 			tag.Bound += "/stale"
 		}
 		d.touched[denom] = true
-		msg := &cstypes.MsgRemoveLiquidity{WithdrawLiquidity: coin(ps.P.LptDenom, wd), MinToken: toInt(minY), MinStandardAmt: toInt(minX), Deadline: d.deadline(tag), Sender: holder.Addr.String()}
+		wcoin := coin(ps.P.LptDenom, wd)
+		if rng.Intn(8) == 0 && d.mode != "none" {
+			// hostile: a coin that only looks like this pool's liquidity token
+			seq := strings.TrimPrefix(ps.P.LptDenom, "lpt-")
+			wcoin, tag.Bound = coin(pick(rng, "junk-"+seq, "lpt-0"+seq), randMag(rng, 60)), "lookalike-coin"
+			minX, minY = new(big.Int), new(big.Int)
+		}
+		msg := &cstypes.MsgRemoveLiquidity{WithdrawLiquidity: wcoin, MinToken: toInt(minY), MinStandardAmt: toInt(minX), Deadline: d.deadline(tag), Sender: holder.Addr.String()}
 		return r.Mk(holder, tag, msg), true
 	case 2: // swap
 		tag := &csTag{Kind: "swap"}
@@ -557,6 +574,11 @@ func (d *csDirector) intent(maxBits, blockNo int) (rig.Tx, bool) {
 		side := pick(rng, denom, d.std)
 		if rng.Intn(5) == 0 {
 			side, tag.Note = d.otherDenom(denom), "foreign-denom" // dust of a third denomination in the pool account
+		} else if have := amountOf(s.Bal[a.Addr.String()], ps.P.LptDenom); have.Sign() > 0 && rng.Intn(4) == 0 {
+			// the pool's own liquidity token sent to the pool account
+			d.touched[denom] = true
+			tag.Note = "own-lpt"
+			return r.Mk(a, tag, banktypes.NewMsgSend(a.Addr, pa0(ps.P.EscrowAddress), sdk.NewCoins(coin(ps.P.LptDenom, randFrac(rng, have))))), true
 		}
 		pa, _ := sdk.AccAddressFromBech32(ps.P.EscrowAddress)
 		d.touched[denom] = true
@@ -642,6 +664,9 @@ func (d *csDirector) observe(br *rig.BlockRecord) {
 		run.Count(tag.Kind+"-"+okc, 1)
 		if tag.Kind == "swap" {
 			run.Count("swap-"+tag.Hop+"-"+okc, 1)
+		}
+		if tag.Bound == "lookalike-coin" || tag.Note == "own-lpt" {
+			run.Count(tag.Kind+"-"+tag.Bound+tag.Note+"-"+okc, 1)
 		}
 		if tag.Bound == "foreign-denom" || tag.Note == "foreign-denom" {
 			run.Count(tag.Kind+"-foreign-denom-"+okc, 1)
@@ -1053,6 +1078,10 @@ func (d *csDirector) checkSettlement(br *rig.BlockRecord, tx *rig.TxRecord, tag 
 			if q.LptDenom == m.WithdrawLiquidity.Denom {
 				p = q
 			}
+		}
+		if p.EscrowAddress == "" {
+			run.Violation(keyBase+":accepted-a-coin-that-is-no-pool's-liquidity-token", detail, "remove liquidity succeeded for %s, which is the liquidity token of no pool", m.WithdrawLiquidity)
+			return
 		}
 		std := pre.Std
 		stdOut := new(big.Int).Neg(poolDelta(p, std))
